@@ -223,6 +223,13 @@ def valid_client_variants(rng, n_random):
         c = apply_opts(base_case(), [f])
         c["id"] = f"valid/{f.__name__}"
         out.append(c)
+    # every pair of options (interacting settings fields are exercised together, not only alone)
+    for i, f in enumerate(CLIENT_OPTS):
+        for g in CLIENT_OPTS[i + 1:]:
+            c = apply_opts(base_case(), [f, g])
+            if len(c["opts"]) == 2:
+                c["id"] = f"valid/pair/{f.__name__}+{g.__name__}"
+                out.append(c)
     for i in range(n_random):
         k = rng.randint(2, 7)
         opts = rng.sample(CLIENT_OPTS, k)
@@ -289,6 +296,13 @@ def v_base_name_only(c):
     return []
 
 
+def v_base_path_only(c):
+    c["files"]["my_base.py"] = "class MyBase:\n    pass\n"
+    sec(c)["base_client_file_path"] = "{ROOT}/my_base.py"
+    sec(c).pop("base_client_name", None)
+    return []
+
+
 def v_files_missing(c):
     sec(c)["files_to_include"] = list(sec(c).get("files_to_include", [])) + ["{ROOT}/nope_inc.py"]
     return ["nope_inc.py"]
@@ -340,6 +354,9 @@ def client_violations():
         ("scalar-no-type", None, v_scalar_no_type, None, ()),
         ("header-var-missing", "headers-resolvable", v_header_missing, None, ()),
         ("header-var-empty", "headers-resolvable", v_header_empty, None, ()),
+        ("base-path-only", "base-client-name", v_base_path_only, None, ("o_custom_base",)),
+        ("plugin-not-importable", None, v_plugin_bad, None, ()),
+        ("plugin-no-dot", None, v_plugin_no_dot, None, ()),
     ]
     for bad in ["foo", "", "STABLE", "Timestamp "]:
         v.append((f"comments-{bad!r}", "include-comments", setv("include_comments", bad, [bad] if bad else []), None, ()))
@@ -434,6 +451,48 @@ def schema_valid_variants():
     return out
 
 
+def s_pre(c):
+    c["files"]["out/schema.py"] = "# old schema file\n"
+    c["files"]["out/schema.txt"] = "old txt\n"
+
+
+def s_graphql_target(c):
+    sec(c)["target_file_path"] = "{ROOT}/out/s.graphql"
+
+
+def s_custom_vars(c):
+    sec(c)["schema_variable_name"] = "my_schema"
+    sec(c)["type_map_variable_name"] = "my_map"
+
+
+SCHEMA_OPTS = [o_url_too, o_headers, o_schema_dir, o_unknown, o_plugins, s_pre, s_graphql_target, s_custom_vars, o_legacy]
+SCHEMA_INCOMPATIBLE = {"variable-names-equal-default": ("s_custom_vars",), "variable-names-equal-default2": ("s_custom_vars",)}
+
+
+def schema_violate(opts, viol, ident):
+    kind, cid, mut, cls = viol
+    c = schema_base()
+    early = [f for f in opts if f is not o_legacy]
+    for f in early:
+        f(c)
+    names = mut(c)
+    if o_legacy in opts:
+        o_legacy(c)
+    c.update({"id": ident, "expect": "invalid", "names": [n.replace("{ROOT}/", "") for n in names], "constraint": cid,
+              "cls": cls, "group": "violation-schema", "kind": kind, "opts": [f.__name__ for f in opts]})
+    return c
+
+
+def v_plugin_bad(c):
+    sec(c)["plugins"] = list(sec(c).get("plugins", [])) + ["c17_no_such_module.NoPlugin"]
+    return ["c17_no_such_module"]
+
+
+def v_plugin_no_dot(c):
+    sec(c)["plugins"] = ["NoDotPlugin"] + list(sec(c).get("plugins", []))
+    return ["plugin"]
+
+
 def schema_violations():
     v = [
         ("no-schema-source", "schema-source", delv("schema_path", "remote_schema_url"), None),
@@ -463,17 +522,30 @@ def schema_violations():
         sec(c)["type_map_variable_name"] = "same_name"
         return ["different"]
     v.append(("variable-names-equal", "variable-names-differ", both_same, None))
+    v.append(("plugin-not-importable", None, v_plugin_bad, None))
+    v.append(("plugin-no-dot", None, v_plugin_no_dot, None))
     out = []
     for pre in (False, True):
-        for kind, cid, mut, cls in v:
+        for viol in v:
+            out.append(schema_violate([s_pre] if pre else [], viol, f"violation-schema/{viol[0]}" + ("+pre" if pre else "")))
+    # option x violation: every context option that interacts with the settings, each constraint violated
+    for opt in SCHEMA_OPTS:
+        for viol in v:
+            if opt.__name__ in SCHEMA_INCOMPATIBLE.get(viol[0], ()):
+                continue
+            out.append(schema_violate([opt], viol, f"violation-schema/x-{opt.__name__}/{viol[0]}"))
+    # pairs of violations of different constraints (which is reported first; still typed, tree untouched)
+    reps = {}
+    for viol in v:
+        reps.setdefault(viol[1] or viol[0], viol)
+    reps = list(reps.values())
+    for i, a in enumerate(reps):
+        for b2 in reps[i + 1:]:
             c = schema_base()
-            if pre:
-                c["files"]["out/schema.py"] = "# old schema file\n"
-                c["files"]["out/schema.txt"] = "old txt\n"
-            names = mut(c)
-            c.update({"id": f"violation-schema/{kind}" + ("+pre" if pre else ""), "expect": "invalid",
-                      "names": [n.replace("{ROOT}/", "") for n in names], "constraint": cid, "cls": cls,
-                      "group": "violation-schema", "kind": kind})
+            a[2](c)
+            b2[2](c)
+            c.update({"id": f"violation-schema/pair/{a[0]}+{b2[0]}", "expect": "invalid", "names": [], "constraint": None,
+                      "cls": None, "group": "violation-pair-schema", "kind": "pair"})
             out.append(c)
     return out
 
